@@ -23,13 +23,13 @@ import (
 type Kind int
 
 const (
-	Begin      Kind = iota // before BEGIN IMMEDIATE
-	Stmt                   // before an Exec / Query (inside or outside a tx)
-	Commit                 // before COMMIT
-	Committed              // after a successful COMMIT
-	RolledBack             // after ROLLBACK (explicit or because COMMIT was failed)
-	StmtDone               // after an Exec / Query returned (its error, if any, is not visible here)
-	BeginFailed            // the BEGIN itself failed after the Begin point was passed (no transaction is open)
+	Begin       Kind = iota // before BEGIN IMMEDIATE
+	Stmt                    // before an Exec / Query (inside or outside a tx)
+	Commit                  // before COMMIT
+	Committed               // after a successful COMMIT
+	RolledBack              // after ROLLBACK (explicit or because COMMIT was failed)
+	StmtDone                // after an Exec / Query returned (its error, if any, is not visible here)
+	BeginFailed             // the BEGIN itself failed after the Begin point was passed (no transaction is open)
 )
 
 func (k Kind) String() string {
